@@ -83,6 +83,18 @@ CHECKS = {
          "recogniser witnesses; the general theorems (display_is_json_number, json_number_accepted) are listed as open in DESIGN.md.",
          "PARTIAL: decided per generated input by the Lean oracle. Trusted: serde/serde_json plumbing, the JSON grammar recogniser, Lean kernel, extractor, harness/driver.",
          "Lean 4 executable model + oracle, differential correspondence; partial proof", "DESIGN.md §5 C17"),
+ "C10": ("Lean model of the repaired impl_sqrt (even total scale, floor square root, sticky digit, then with_precision_round = the declarative rounding proved in C07) and of the five entry "
+         "points. Kernel-checked: the sticky lemma (10*isqrt(N)+1 lies on the same side of every multiple of ten as 10*sqrt(N), so rounding left of the sticky digit takes the decisions of the true "
+         "root), evenness of the shifted scale, the exact branch, negative -> None, zero -> zero, copy-sign = abs with sign. Every sampled result of the real code is judged by an exact certificate "
+         "(squares of the rounding boundaries, all modes, carries to a new digit, power-of-ten boundaries) and compared exactly with the model. Composition into a single theorem "
+         "sqrt_spec is listed as open in DESIGN.md.",
+         "PARTIAL: the headline statement is established per sampled input by the certificate, and structurally by the lemmas named. Trusted: BigUint::sqrt = floor sqrt, Lean kernel, extractor, harness/driver.",
+         "Lean 4 lemmas (sticky digit) + exact rounding certificate oracle + differential correspondence; partial proof", "DESIGN.md §5 C10"),
+ "C11": ("Lean model of the repaired impl_cbrt (scale made divisible by three through the div_rem sign cases, floor cube root, exactness flag, trimming, round_pair on the first discarded digit with "
+         "the translated table) and entry point. Every sampled result of the real code is judged by an exact certificate (cubes of the rounding boundaries, Floor/Ceiling on the signed value) "
+         "and compared exactly with the model; cbrt(-x) under the mirrored mode is compared with -cbrt(x). Kernel-checked so far: zero case; cbrt_spec is listed as open in DESIGN.md.",
+         "PARTIAL: decided per sampled input by the certificate oracle. Trusted: nth_root(3) = floor cube root, Lean kernel, extractor, harness/driver.",
+         "Lean 4 executable model + exact rounding certificate oracle + differential correspondence; partial proof", "DESIGN.md §5 C11"),
 }
 
 NOT_YET = "check under construction in this round (not yet claimed); see DESIGN.md §11 order of work"
